@@ -89,6 +89,8 @@ class SerialGateway:
 
 class LubaGateway(SerialGateway):
     settings = (0, 0, 0)         # mode, event filter, hardware - as last written by the host (READ/WRITE SETTINGS)
+    bus_quiescent = False
+    bus_initialise = False
 
     def event(self, status, data, lat_name):
         """An event packet laid out as the event filter the host configured prescribes (bit 7: no events, 6: none for
@@ -136,6 +138,19 @@ class LubaGateway(SerialGateway):
                               "tx_id": self._tx_id, "t": t})
             if self.mute:
                 return
+            # mode settings (the driver's own table): bit 5 = no sending of DALI frames while the bus is in quiescent mode,
+            # bit 6 = none during initialisation mode.  The bus states follow the frames this interface has put out.
+            if (self.settings[0] & 0x20 and self.bus_quiescent) or (self.settings[0] & 0x40 and self.bus_initialise):
+                self.wire[-1]["not_transmitted"] = True
+                return
+            if bits == 24 and value == 0xFFFE1D and twice:
+                self.bus_quiescent = True
+            elif bits == 24 and value == 0xFFFE1E and twice:
+                self.bus_quiescent = False
+            elif bits == 16 and (value >> 8) == 0xA5 and twice:
+                self.bus_initialise = True
+            elif bits == 16 and value == 0xA100:
+                self.bus_initialise = False
             self.emit(RW.luba_frame(0x33, [self._tx_id, 0]), "ack")
             fb = list(value.to_bytes(nbytes, "big"))
             for _ in range(2 if twice else 1):
